@@ -309,7 +309,7 @@ PROPS["C17"] = dict(
     ),
     rule=("a case is one seeded history (2-40 steps) against one dispatcher kind: functor_dispatcher over basic_dispatcher (1, 2, 3 arguments; dynamic and static casting) with insert/overwrite/erase/dispatch, "
           "functor_dispatcher over basic_fast_dispatcher (1, 2, 3 arguments) with insert/overwrite/dispatch (per-class indices reset at the start of every run, one fast dispatcher per hierarchy), "
-          "static_dispatcher (antisymmetric and symmetric, a type list that omits one class so that on_error is reachable; also with an explicitly different right-hand type list, and over two different hierarchies with base_rhs given), acyclic visitors (default and throwing catch-all, visitors implementing subsets, const and non-const) and cyclic visitors. "
+          "static_dispatcher (antisymmetric and symmetric, a type list that omits one class so that on_error is reachable; also with an explicitly different right-hand type list, and over two different hierarchies with base_rhs given), acyclic visitors (default, throwing and a user-written reporting catch-all policy whose own return value must come back, visitors implementing subsets, const and non-const) and cyclic visitors; two functor-dispatcher configurations are declared with a reference return type and must hand back the very object the handler returned a reference to. "
           "The hierarchy has four concrete classes, one derived from another. Handlers record their id, the addresses of the arguments they receive in order and the address of the undispatched extra argument. "
           "A dispatch must invoke exactly the handler the model holds for the tuple of dynamic types with exactly the caller's objects (swapped only under symmetric dispatch) and the extra argument itself, "
           "or - when never registered, erased, or only another permutation is registered - report an error and run no handler. "
